@@ -38,20 +38,27 @@ Strain(dim, G) ==
 (* how the linear field is prescribed on the boundary: functions of position, nodal arrays aligned with the (ascending) node *)
 (* list, or nodal arrays aligned with a node list in another order (node sets concatenated edge by edge) - the field is the same *)
 BcForms == {"func", "array", "array-permuted"}
+(* how the constraints reach the linear solver.  A problem without any Lagrange condition is solved by elimination of the     *)
+(* prescribed dofs; as soon as it holds one (a tie u_a - u_b = value between two nodes, the weld of two beam members) EVERY     *)
+(* prescribed value is imposed through a multiplier row instead.  The tie added here is satisfied by the linear field itself, *)
+(* so the expectations are unchanged: the path is an implementation choice the result may not depend on.                      *)
+Paths == {"elimination", "lagrange"}
 
 Configs ==
-         {[phys |-> "elastic", dim |-> 2, elem |-> e, law |-> l, ps |-> ps, mesh |-> mk, map |-> mp, field |-> f, bc |-> b] :
-              e \in Elems2D, l \in Laws, ps \in BOOLEAN, mk \in MeshKinds, mp \in Maps, f \in DOMAIN Fields2, b \in BcForms}
-    \cup {[phys |-> "elastic", dim |-> 3, elem |-> e, law |-> l, ps |-> FALSE, mesh |-> mk, map |-> mp, field |-> f, bc |-> b] :
-              e \in Elems3D, l \in Laws, mk \in MeshKinds, mp \in Maps, f \in DOMAIN Fields3, b \in BcForms}
-    \cup {[phys |-> "thermal", dim |-> d, elem |-> e, law |-> "k", ps |-> FALSE, mesh |-> mk, map |-> mp, field |-> f, bc |-> b] :
-              d \in {2, 3}, e \in Elems2D \cup Elems3D, mk \in MeshKinds, mp \in Maps, f \in {"g1", "g2"}, b \in BcForms}
+         {[phys |-> "elastic", dim |-> 2, elem |-> e, law |-> l, ps |-> ps, mesh |-> mk, map |-> mp, field |-> f, bc |-> b, path |-> pa] :
+              e \in Elems2D, l \in Laws, ps \in BOOLEAN, mk \in MeshKinds, mp \in Maps, f \in DOMAIN Fields2, b \in BcForms, pa \in Paths}
+    \cup {[phys |-> "elastic", dim |-> 3, elem |-> e, law |-> l, ps |-> FALSE, mesh |-> mk, map |-> mp, field |-> f, bc |-> b, path |-> pa] :
+              e \in Elems3D, l \in Laws, mk \in MeshKinds, mp \in Maps, f \in DOMAIN Fields3, b \in BcForms, pa \in Paths}
+    \cup {[phys |-> "thermal", dim |-> d, elem |-> e, law |-> "k", ps |-> FALSE, mesh |-> mk, map |-> mp, field |-> f, bc |-> b, path |-> pa] :
+              d \in {2, 3}, e \in Elems2D \cup Elems3D, mk \in MeshKinds, mp \in Maps, f \in {"g1", "g2"}, b \in BcForms, pa \in Paths}
 
 (* beams: a straight member of length 3 with a 1/2 x 1/4 rectangular section, E = 10, inclined in 2-D / 3-D.     *)
 (* constant axial strain e0 -> N = E A e0 ;  constant curvature kappa (no shear) -> Mz = E Iz kappa               *)
 BeamE == RI(10)   BeamA == R(1, 8)   BeamIz == R(1, 1536)      \* b h^3 / 12 with b = 1/2 (along z), h = 1/4 (along y)
-BeamConfigs == {[phys |-> "beam", dim |-> d, elem |-> e, law |-> th, ps |-> FALSE, mesh |-> "unstructured", map |-> "id", field |-> f, bc |-> "func"] :
-                   d \in {1, 2, 3}, e \in Elems1D, th \in {"EB", "Timo"}, f \in {"axial", "curvature"}}
+(* the member is one beam (elimination) or two collinear beams welded at mid-length (Lagrange path); the axial field carries  *)
+(* a rigid offset so that every prescribed value is non-zero                                                                  *)
+BeamConfigs == {[phys |-> "beam", dim |-> d, elem |-> e, law |-> th, ps |-> FALSE, mesh |-> "unstructured", map |-> "id", field |-> f, bc |-> "func", path |-> pa] :
+                   d \in {1, 2, 3}, e \in Elems1D, th \in {"EB", "Timo"}, f \in {"axial", "curvature"}, pa \in Paths}
 BeamValid(c) == /\ (c.field = "curvature") => c.dim >= 2
                 /\ (c.field = "curvature" /\ c.law = "Timo") => c.elem # "SEG2"   \* a linear deflection cannot carry a constant curvature
 BeamExpect(c, amp) == IF c.field = "axial" THEN Mul3(BeamE, BeamA, amp) ELSE Mul3(BeamE, BeamIz, amp)
@@ -60,6 +67,7 @@ Valid(c) ==
     /\ c.dim = 2 => c.elem \in Elems2D
     /\ c.dim = 3 => c.elem \in Elems3D
     /\ (c.bc # "func") => (c.mesh = "unstructured" /\ c.map = "id" /\ c.law \in {"iso", "k"})       \* the form of the boundary data is independent of law, mesh kind and map
+    /\ (c.path = "lagrange") => (c.bc = "func" /\ c.mesh = "unstructured" /\ c.law \in {"iso", "k"} /\ c.map \in {"id", "shear"})    \* the solver path is independent of the rest
     /\ (c.mesh = "mixed") => c.elem \in {"QUAD4", "PRISM6"}        \* mixed main-dimension types come from partial recombination / prisms carry both boundary types
 
 MapOf(c, Maps2, Maps3) == IF c.dim = 2 THEN Maps2[c.map] ELSE Maps3[c.map]
